@@ -87,59 +87,65 @@ Fixpoint ins_nat (k : nat) (l : list nat) : list nat :=
 Definition sort_nat (l : list nat) : list nat := fold_right ins_nat [] l.
 Definition enc_keys (l : list nat) : list N := N.of_nat (length l) :: map N.of_nat (sort_nat l).
 
-Definition hstep (h : hst) (e : list N) : option (hst * list N) :=
+(* the codec: the model event and the call's return values (None: not an event the model can take now) *)
+Definition dec (h : hst) (e : list N) : option (ev * list N) :=
   let s := hs h in
   let v := hvar h in
-  let fin (s' : st) (rets : list N) :=
-    let s'' := settle s' in
-    Some ({| hs := s''; hvar := v; hlog := length (cblog s'') |}, obs_of rets {| hs := s''; hvar := v; hlog := hlog h |}) in
   match e with
-  | [1; c; r] => fin (set_context s (n2n c) (nz r)) []
-  | [2; k; st] => if v then None else let '(s', (d, ex)) := set_key repaired s (n2n k) (nz st) in fin s' [d; nb ex]
-  | [3; k] => if v then None else let '(s', ex) := remove_key s (n2n k) in fin s' [nb ex]
+  | [1; c; r] => Some (ESetCtx (n2n c) (nz r), [])
+  | [2; k; st] => if v then None else let '(d, ex) := snd (set_key repaired s (n2n k) (nz st)) in Some (ESetKey (n2n k) (nz st), [d; nb ex])
+  | [3; k] => if v then None else Some (ERemoveKey (n2n k), [nb (snd (remove_key s (n2n k)))])
   | 4 :: r :: ks =>
     if v then None else
-    let '(s', (added, removed)) := sync_keys repaired s (sort_nat (map n2n ks)) (nz r) in
-    fin s' (enc_keys added ++ enc_keys removed)
-  | [5; k] => let '(d, ex) := get_key s (n2n k) in fin s [d; nb ex]
-  | [6; k; c] => let '(s', (ex, rs)) := reset_routine repaired s (n2n k) (n2n c) in fin s' [nb ex; nb rs]
-  | [7; k; c] => let '(s', (ex, rs)) := restart_routine s (n2n k) (n2n c) in fin s' [nb ex; nb rs]
-  | [8; c] => let '(s', (n, tot)) := reset_all repaired s (n2n c) in fin s' [N.of_nat n; N.of_nat tot]
-  | [9; c] => let '(s', (n, tot)) := restart_all s (n2n c) in fin s' [N.of_nat n; N.of_nat tot]
-  | [10; k] => if v then let '(s', (d, ex)) := add_key_ref repaired s (n2n k) in fin s' [d; nb ex] else None
-  | [11; f] => if v then match nth_error (refs s) (n2n f) with Some _ => fin (release_start s (n2n f)) [] | None => None end else None
+    let '(added, removed) := snd (sync_keys repaired s (sort_nat (map n2n ks)) (nz r)) in
+    Some (ESyncKeys (sort_nat (map n2n ks)) (nz r), enc_keys added ++ enc_keys removed)
+  | [5; k] => let '(d, ex) := get_key s (n2n k) in Some (EGet, [d; nb ex])
+  | [6; k; c] => let '(ex, rs) := snd (reset_routine repaired s (n2n k) (n2n c)) in Some (EReset (n2n k) (n2n c), [nb ex; nb rs])
+  | [7; k; c] => let '(ex, rs) := snd (restart_routine s (n2n k) (n2n c)) in Some (ERestart (n2n k) (n2n c), [nb ex; nb rs])
+  | [8; c] => let '(n, tot) := snd (reset_all repaired s (n2n c)) in Some (EResetAll (n2n c), [N.of_nat n; N.of_nat tot])
+  | [9; c] => let '(n, tot) := snd (restart_all s (n2n c)) in Some (ERestartAll (n2n c), [N.of_nat n; N.of_nat tot])
+  | [10; k] => if v then let '(d, ex) := snd (add_key_ref repaired s (n2n k)) in Some (EAddRef (n2n k), [d; nb ex]) else None
+  | [11; f] => if v then match nth_error (refs s) (n2n f) with Some _ => Some (ERelStart (n2n f), []) | None => None end else None
   | [12; a] =>
     if v then
       match nth_error (rels s) (n2n a) with
-      | Some l => if lparked l then fin (release_section s (n2n a)) [] else None
+      | Some l => if lparked l then Some (ERelSect (n2n a), []) else None
       | None => None
       end
     else None
-  | [13; k] => if v then let '(s', ex) := rc_remove_key s (n2n k) in fin s' [nb ex] else None
+  | [13; k] => if v then Some (ERcRemove (n2n k), [nb (snd (rc_remove_key s (n2n k)))]) else None
   | [14; i; en] =>
     match nth_error (insts s) (n2n i) with
-    | Some x => match ipcv x with IGate0 => fin (proceed repaired s (n2n i) (nz en)) [] | _ => None end
+    | Some x => match ipcv x with IGate0 => Some (EProceed (n2n i) (nz en), []) | _ => None end
     | None => None
     end
   | [15; i; o] =>
     match nth_error (insts s) (n2n i) with
-    | Some x => match ipcv x with IUser => fin (fn_return s (n2n i) (dec_out o)) [] | _ => None end
+    | Some x => match ipcv x with IUser => Some (EReturn (n2n i) (dec_out o), []) | _ => None end
     | None => None
     end
   | [16; i] =>
     match nth_error (insts s) (n2n i) with
-    | Some x => match ipcv x with IBook _ => fin (bookkeep s (n2n i)) [] | _ => None end
+    | Some x => match ipcv x with IBook _ => Some (EBook (n2n i), []) | _ => None end
     | None => None
     end
-  | [17; d] => fin (advance s d) []
+  | [17; d] => Some (EAdvance d, [])
   | [18; j] =>
     match nth_error (fired_sorted (timers s)) (n2n j) with
-    | Some t => fin (timer_cb repaired s t) []
+    | Some t => Some (ETimerCb t, [])
     | None => None
     end
-  | [19] => fin s (enc_keys (map fst (kmap s)))
-  | [21; c] => if nz c then fin (cancel_root s (n2n c)) [] else None
+  | [19] => Some (EGet, enc_keys (map fst (kmap s)))
+  | [21; c] => if nz c then Some (ECancelRoot (n2n c), []) else None
   | _ => None
+  end.
+
+Definition hstep (h : hst) (e : list N) : option (hst * list N) :=
+  match dec h e with
+  | Some (ev, rets) =>
+    let s'' := settle (step repaired (hs h) ev) in
+    Some ({| hs := s''; hvar := hvar h; hlog := length (cblog s'') |}, obs_of rets {| hs := s''; hvar := hvar h; hlog := hlog h |})
+  | None => None
   end.
 
 Definition step_opt (h : option hst) (e : list N) : option (option hst * list N) :=
@@ -299,7 +305,14 @@ Definition r_live (k : N) (x : rref) : bool := rr_cnt x && N.eqb (rr_key x) k.
    then follows the property text: the key goes only if no counted reference to it is left at that moment. *)
 Definition r_release_remove (dl clk : N) (r : rst) (k : N) : rst :=
   if Nat.eqb (cnt (r_live k) (r_refs r)) 0 then fst (r_remove dl clk r k) else r.
-Definition r_step (dl clk ctx : N) (tims : list (N * N * N)) (late : bool) (r : rst) (e : list N) : rst * option (list N) :=
+(* [present]: the keys of the observation that follows the event.  It is consulted in one case only: the callback that ran
+   (event 18) is one of several parked delayed-removal callbacks with the same key and deadline (records of one key before
+   and after ResetRoutine, removal requested at the same instant).  The observation does not tell which of them ran - only
+   the one of the key's current record removes the key - so the reference follows what is observed; the last of them to
+   run must remove the key. *)
+Definition tcount (t : N * N * N) (tims : list (N * N * N)) : nat :=
+  cnt (fun u => let '(a, b, c) := u in let '(a', b', c') := t in N.eqb a a' && N.eqb b b' && N.eqb c c') tims.
+Definition r_step (dl clk ctx : N) (tims : list (N * N * N)) (late : bool) (present : N -> bool) (r : rst) (e : list N) : rst * option (list N) :=
   match e with
   | [2; k; _] => let '(r', (d, ex)) := r_request r k in (r', Some [d; nb ex])
   | [3; k] => let '(r', ex) := r_remove dl clk r k in (r', Some [nb ex])
@@ -363,7 +376,8 @@ Definition r_step (dl clk ctx : N) (tims : list (N * N * N)) (late : bool) (r : 
       if nz kind then
         match alook (r_keys r) k with
         | Some i => match ki_pend i with
-                    | Some d => if N.eqb d dead && N.leb d clk then (set_r_keys r (adel (r_keys r) k), None) else (r, None)
+                    | Some d => if N.eqb d dead && N.leb d clk && negb (Nat.leb 2 (tcount (kind, k, dead) tims) && present k)
+                                then (set_r_keys r (adel (r_keys r) k), None) else (r, None)
                     | None => (r, None)
                     end
         | None => (r, None)
@@ -385,11 +399,11 @@ Record mst := {
   m_delay : N; m_script : option (list N); m_clock : N; m_ctx : N;
   m_ref : rst;
   m_okeys : list (N * N);             (* the key set observed last *)
-  m_incs : list (N * nat);            (* data value -> incarnation *)
+  m_incs : list (N * nat);            (* record (pk key data) -> incarnation *)
   m_ninc : nat;
   m_ninst : nat;
   m_sinc : list (option nat);         (* per instance: the incarnation its key had when it was spawned *)
-  m_bo : list (N * nat);              (* data value (record) -> back-off index *)
+  m_bo : list (N * nat);              (* record (pk key data) -> back-off index *)
   m_retry : list (N * N);             (* key -> deadline of the retry that must come *)
   m_tims : list (N * N * N);          (* parked timer callbacks observed last *)
   m_canc : list N;                    (* root contexts cancelled by their owner *)
@@ -413,13 +427,16 @@ Definition opt_nat_eqb (a b : option nat) : bool :=
 
 (* incarnations: a data value seen for the first time continues the incarnation of its key if the key was present
    in the previous observation (ResetRoutine), otherwise it starts a new one *)
+(* a record is named by its key AND data value (the harness's data values key * 1000 + construction count are unique per
+   key only): an injective pairing *)
+Definition pk (k d : N) : N := (k + d) * (k + d) + k.
 Definition assign_incs (prev : list (N * N)) (acc : list (N * nat) * nat) (kd : N * N) : list (N * nat) * nat :=
   let '(incs, n) := acc in
   let '(k, d) := kd in
-  if ahas incs d then acc
+  if ahas incs (pk k d) then acc
   else match alook prev k with
-       | Some d0 => match alook incs d0 with Some i => (aset incs d i, n) | None => (aset incs d n, S n) end
-       | None => (aset incs d n, S n)
+       | Some d0 => match alook incs (pk k d0) with Some i => (aset incs (pk k d) i, n) | None => (aset incs (pk k d) n, S n) end
+       | None => (aset incs (pk k d) n, S n)
        end.
 
 Definition keys_eqb (a : list (N * N)) (b : list (N * kinfo)) : bool :=
@@ -427,113 +444,144 @@ Definition keys_eqb (a : list (N * N)) (b : list (N * kinfo)) : bool :=
 Definition data_ok (obs : list (N * N)) (ref : list (N * kinfo)) : bool :=
   forallb (fun kd => match alook ref (fst kd) with Some i => N.eqb (ki_data i) (snd kd) | None => true end) obs.
 
+(* ---- the pieces of one monitor step ---- *)
+Definition e_clock (m : mst) (e : list N) : N := match e with [17; d] => m_clock m + d | _ => m_clock m end.
+Definition e_ctx (m : mst) (e : list N) : N := match e with [1; c; _] => c | _ => m_ctx m end.
+(* the installed root context has been cancelled by its owner.  The property texts do not say whether such a context
+   counts as "a context": the restarted flag / count of RestartRoutine / RestartAllRoutines may then be either value
+   (6/3), and the retry obligations (7/5: "run again after its backoff") exist only while the container holds a
+   context that is not cancelled - a run under a cancelled context ends at once, and a routine started under a root
+   that was cancelled later may record its exit after the container has dropped that root (k.ctx = nil without
+   ClearContext).  Everything else is judged as with a live context. *)
+Definition e_canc (m : mst) (e : list N) : list N := match e with [21; c] => c :: m_canc m | _ => m_canc m end.
+Definition e_live (m : mst) (e : list N) : bool := nz (e_ctx m e) && negb (nmem (e_ctx m e) (e_canc m e)).
+Definition e_late (e : list N) (p : pobs) : bool :=
+  match e with
+  | [12; a] => match nth_error (po_rels p) (n2n a) with Some c => N.eqb c 3 | None => false end
+  | _ => false
+  end.
+Definition news_of (m : mst) (p : pobs) : list (N * N * N * N * N) := skipn (m_ninst m) (po_insts p).
+
+(* ---- C06: the reference key set ---- *)
+Definition ref1 (m : mst) (e : list N) (p : pobs) : rst * option (list N) :=
+  r_step (m_delay m) (m_clock m) (m_ctx m) (m_tims m) (e_late e p) (ahas (po_keys p)) (m_ref m) e.
+Definition expect0_of (m : mst) (e : list N) (p : pobs) : option (list N) :=
+  if nmem (m_ctx m) (m_canc m)
+  then snd (r_step (m_delay m) (m_clock m) 0 (m_tims m) (e_late e p) (ahas (po_keys p)) (m_ref m) e) else None.
+(* recorded exits of the current record set / clear [failed]; a spawn clears it *)
+Definition delta_failed (ks : list (N * kinfo)) (x : N * N * N) : list (N * kinfo) :=
+  let '(k, d, o) := x in
+  match alook ks k with
+  | Some i => if N.eqb (ki_data i) d then set_failed (nz o) ks k else ks
+  | None => ks
+  end.
+Definition keys2_of (m : mst) (e : list N) (p : pobs) : list (N * kinfo) :=
+  fold_left (set_failed false) (map ikey_of (news_of m p)) (fold_left delta_failed (po_delta p) (r_keys (fst (ref1 m e p)))).
+Definition ref2 (m : mst) (e : list N) (p : pobs) : rst := set_r_keys (fst (ref1 m e p)) (keys2_of m e p).
+Definition rets_match (expect expect0 : option (list N)) (rets : list N) : bool :=
+  match expect with
+  | Some x => list_eqb x rets || match expect0 with Some y => list_eqb y rets | None => false end
+  | None => true
+  end.
+Definition c61 (m : mst) (e : list N) (p : pobs) : bool := keys_eqb (po_keys p) (keys2_of m e p).
+Definition c62 (m : mst) (e : list N) (p : pobs) : bool := data_ok (po_keys p) (keys2_of m e p).
+Definition c63 (m : mst) (e : list N) (p : pobs) : bool := rets_match (snd (ref1 m e p)) (expect0_of m e p) (po_rets p).
+Definition c64 (m : mst) (e : list N) (p : pobs) : bool :=
+  forallb (fun x => rr_rel x || ahas (po_keys p) (rr_key x)) (r_refs (ref2 m e p)).
+Definition c65 (m : mst) (e : list N) (p : pobs) : bool := Nat.eqb (length (po_rels p)) (length (r_rels (ref2 m e p))).
+
+(* ---- C07 ---- *)
+Definition incs_of (m : mst) (p : pobs) : list (N * nat) * nat :=
+  fold_left (assign_incs (m_okeys m)) (po_keys p) (m_incs m, m_ninc m).
+Definition inc_of_key (incs : list (N * nat)) (keys : list (N * N)) (k : N) : option nat :=
+  match alook keys k with Some d => alook incs (pk k d) | None => None end.
+Definition sinc_of (m : mst) (p : pobs) : list (option nat) :=
+  (m_sinc m ++ map (fun x => inc_of_key (fst (incs_of m p)) (po_keys p) (ikey_of x)) (news_of m p))%list.
+Definition is_user5 (x : N * N * N * N * N) : bool := let '(c, _, _, _, _) := x in N.eqb c 3.
+Definition inc_of_inst (incs : list (N * nat)) (x : N * N * N * N * N) : option nat :=
+  let '(_, k, d, _, _) := x in alook incs (pk k d).
+Definition c71 (m : mst) (p : pobs) : bool :=
+  nodup_nat (map (fun x => match inc_of_inst (fst (incs_of m p)) x with Some i => i | None => 0%nat end)
+                 (filter is_user5 (po_insts p))).
+Definition live_ok (ctx' : N) (incs : list (N * nat)) (keys : list (N * N)) (x : N * N * N * N * N) : bool :=
+  let '(c, k, d, _, canc) := x in
+  negb (N.eqb c 3) || nz canc
+  || (nz ctx' && match inc_of_key incs keys k, alook incs (pk k d) with Some a, Some b => Nat.eqb a b | _, _ => false end).
+Definition c72 (m : mst) (e : list N) (p : pobs) : bool :=
+  forallb (live_ok (e_ctx m e) (fst (incs_of m p)) (po_keys p)) (po_insts p).
+(* a new instance belongs to a key that is in the set; an instance in user code runs a record of the incarnation
+   its key had when it was spawned; nothing is spawned while the container has no context *)
+Definition sinc_ok (incs : list (N * nat)) (ix : option nat * (N * N * N * N * N)) : bool :=
+  negb (is_user5 (snd ix)) || opt_nat_eqb (fst ix) (inc_of_inst incs (snd ix)).
+Definition c73 (m : mst) (p : pobs) : bool :=
+  forallb (fun x => ahas (po_keys p) (ikey_of x)) (news_of m p)
+  && forallb (sinc_ok (fst (incs_of m p))) (combine (sinc_of m p) (po_insts p)).
+Definition c74 (m : mst) (e : list N) (p : pobs) : bool := match news_of m p with [] => true | _ => nz (e_ctx m e) end.
+(* removal, judged against what the caller asked for (the reference key set, not the observed one): a key is GONE when
+   the requests so far have removed it - it is not in the reference set (removed at once: no delay configured, or its
+   routine had failed; or its own delayed-removal callback has run), or its removal is pending, the deadline has
+   passed and the callback of that removal is not merely waiting at its gate (the harness may run a due callback
+   late; the key legitimately lives until then).  A re-request inside the delay clears the pending removal, so such a
+   key is not gone.  For a gone key the context of an instance inside the routine function is cancelled (7/6) and no
+   instance is started (7/7). *)
+Definition removal_parked (tims : list (N * N * N)) (k d : N) : bool :=
+  existsb (fun t => let '(kind, k', d') := t in nz kind && N.eqb k' k && N.eqb d' d) tims.
+Definition gone (keys2 : list (N * kinfo)) (clock' : N) (tims : list (N * N * N)) (k : N) : bool :=
+  match alook keys2 k with
+  | None => true
+  | Some i => match ki_pend i with
+              | Some d => N.leb d clock' && negb (removal_parked tims k d)
+              | None => false
+              end
+  end.
+Definition c76 (m : mst) (e : list N) (p : pobs) : bool :=
+  forallb (fun x => let '(c, k, _, _, canc) := x in
+                    negb (N.eqb c 3) || nz canc || negb (gone (keys2_of m e p) (e_clock m e) (po_tims p) k)) (po_insts p).
+Definition c77 (m : mst) (e : list N) (p : pobs) : bool :=
+  forallb (fun x => negb (gone (keys2_of m e p) (e_clock m e) (po_tims p) (ikey_of x))) (news_of m p).
+(* retry obligations *)
+Definition retry0_of (m : mst) (e : list N) : list (N * N) :=
+  match e with
+  | [1; 0; _] => []
+  | [6; k; c] => if cond_ok c k then adel (m_retry m) k else m_retry m
+  | [8; c] => filter (fun kd => negb (cond_ok c (fst kd))) (m_retry m)
+  | _ => m_retry m
+  end.
+Definition retry_delta (script : option (list N)) (keys : list (N * N)) (clock' : N)
+           (acc : list (N * nat) * list (N * N)) (x : N * N * N) : list (N * nat) * list (N * N) :=
+  let '(bo, rt) := acc in
+  let '(k, d, o) := x in
+  let cur := match alook keys k with Some d' => N.eqb d d' | None => false end in
+  if nz o then
+    if cur then
+      let idx := match alook bo (pk k d) with Some i => i | None => 0%nat end in
+      (aset bo (pk k d) (S idx),
+       match script with
+       | Some l => match nth_error l idx with Some dur => aset rt k (clock' + dur) | None => adel rt k end
+       | None => adel rt k
+       end)
+    else acc
+  else (aset bo (pk k d) 0%nat, if cur then adel rt k else rt).
+Definition retry1_of (m : mst) (e : list N) (p : pobs) : list (N * nat) * list (N * N) :=
+  fold_left (retry_delta (m_script m) (po_keys p) (e_clock m e)) (po_delta p) (m_bo m, retry0_of m e).
+Definition retry3_of (m : mst) (e : list N) (p : pobs) : list (N * N) :=
+  if e_live m e
+  then filter (fun kd => ahas (po_keys p) (fst kd))
+              (fold_left (fun rt k => adel rt k) (map ikey_of (news_of m p)) (snd (retry1_of m e p)))
+  else [].
+Definition parked_retry (tims : list (N * N * N)) (k : N) : bool :=
+  existsb (fun t => let '(kind, k', _) := t in N.eqb kind 0 && N.eqb k' k) tims.
+Definition c75 (m : mst) (e : list N) (p : pobs) : bool :=
+  forallb (fun kd => negb (N.leb (snd kd) (e_clock m e)) || parked_retry (po_tims p) (fst kd)) (retry3_of m e p).
+
 Definition mon1 (m : mst) (e : list N) (p : pobs) : mst * list (nat * nat) :=
-  let clock' := match e with [17; d] => m_clock m + d | _ => m_clock m end in
-  let ctx' := match e with [1; c; _] => c | _ => m_ctx m end in
-  (* the installed root context has been cancelled by its owner.  The property texts do not say whether such a context
-     counts as "a context": the restarted flag / count of RestartRoutine / RestartAllRoutines may then be either value
-     (6/3), and the retry obligations (7/5: "run again after its backoff") exist only while the container holds a
-     context that is not cancelled - a run under a cancelled context ends at once, and a routine started under a root
-     that was cancelled later may record its exit after the container has dropped that root (k.ctx = nil without
-     ClearContext).  Everything else is judged as with a live context. *)
-  let canc' := match e with [21; c] => c :: m_canc m | _ => m_canc m end in
-  let dead := nmem (m_ctx m) (m_canc m) in
-  let live' := nz ctx' && negb (nmem ctx' canc') in
-  (* ---- C06: the reference key set ---- *)
-  let late := match e with
-              | [12; a] => match nth_error (po_rels p) (n2n a) with Some c => N.eqb c 3 | None => false end
-              | _ => false
-              end in
-  let '(r1, expect) := r_step (m_delay m) (m_clock m) (m_ctx m) (m_tims m) late (m_ref m) e in
-  let expect0 := if dead then snd (r_step (m_delay m) (m_clock m) 0 (m_tims m) late (m_ref m) e) else None in
-  let news := skipn (m_ninst m) (po_insts p) in
-  let spawned_keys := map ikey_of news in
-  (* recorded exits of the current record set / clear [failed]; a spawn clears it *)
-  let keys1 := fold_left (fun ks x => let '(k, d, o) := x in
-                            match alook ks k with
-                            | Some i => if N.eqb (ki_data i) d then set_failed (nz o) ks k else ks
-                            | None => ks
-                            end) (po_delta p) (r_keys r1) in
-  let keys2 := fold_left (set_failed false) spawned_keys keys1 in
-  let r2 := set_r_keys r1 keys2 in
-  let f6 := fails 6 1 (keys_eqb (po_keys p) keys2)
-            ++ fails 6 2 (data_ok (po_keys p) keys2)
-            ++ fails 6 3 (match expect with
-                          | Some x => list_eqb x (po_rets p)
-                                      || match expect0 with Some y => list_eqb y (po_rets p) | None => false end
-                          | None => true
-                          end)
-            ++ fails 6 4 (forallb (fun x => rr_rel x || ahas (po_keys p) (rr_key x)) (r_refs r2))
-            ++ fails 6 5 (Nat.eqb (length (po_rels p)) (length (r_rels r2))) in
-  (* ---- C07 ---- *)
-  let '(incs', ninc') := fold_left (assign_incs (m_okeys m)) (po_keys p) (m_incs m, m_ninc m) in
-  let inc_of_key (k : N) : option nat := match alook (po_keys p) k with Some d => alook incs' d | None => None end in
-  let sinc' := (m_sinc m ++ map (fun x => inc_of_key (ikey_of x)) news)%list in
-  let users := filter (fun x => let '(c, _, _, _, _) := x in N.eqb c 3) (po_insts p) in
-  let user_incs := map (fun x => let '(_, _, d, _, _) := x in match alook incs' d with Some i => i | None => 0%nat end) users in
-  let f7a := fails 7 1 (nodup_nat user_incs) in
-  let live_ok (x : N * N * N * N * N) : bool :=
-    let '(c, k, d, _, canc) := x in
-    negb (N.eqb c 3) || nz canc
-    || (nz ctx' && match inc_of_key k, alook incs' d with Some a, Some b => Nat.eqb a b | _, _ => false end) in
-  let f7b := fails 7 2 (forallb live_ok (po_insts p)) in
-  (* a new instance belongs to a key that is in the set; an instance in user code runs a record of the incarnation
-     its key had when it was spawned; nothing is spawned while the container has no context *)
-  let f7c := fails 7 3 (forallb (fun x => ahas (po_keys p) (ikey_of x)) news
-                        && forallb (fun ix => let '(c, _, d, _, _) := snd ix in
-                                              negb (N.eqb c 3) || opt_nat_eqb (fst ix) (alook incs' d))
-                                   (combine sinc' (po_insts p)))
-             ++ fails 7 4 (match news with [] => true | _ => nz ctx' end) in
-  (* removal, judged against what the caller asked for (the reference key set, not the observed one): a key is GONE when
-     the requests so far have removed it - it is not in the reference set (removed at once: no delay configured, or its
-     routine had failed; or its own delayed-removal callback has run), or its removal is pending, the deadline has
-     passed and the callback of that removal is not merely waiting at its gate (the harness may run a due callback
-     late; the key legitimately lives until then).  A re-request inside the delay clears the pending removal, so such a
-     key is not gone.  For a gone key the context of an instance inside the routine function is cancelled (7/6) and no
-     instance is started (7/7). *)
-  let removal_parked (k d : N) : bool :=
-    existsb (fun t => let '(kind, k', d') := t in nz kind && N.eqb k' k && N.eqb d' d) (po_tims p) in
-  let gone (k : N) : bool :=
-    match alook keys2 k with
-    | None => true
-    | Some i => match ki_pend i with
-                | Some d => N.leb d clock' && negb (removal_parked k d)
-                | None => false
-                end
-    end in
-  let f7e := fails 7 6 (forallb (fun x => let '(c, k, _, _, canc) := x in negb (N.eqb c 3) || nz canc || negb (gone k)) (po_insts p))
-             ++ fails 7 7 (forallb (fun x => negb (gone (ikey_of x))) news) in
-  (* retry obligations *)
-  let retry0 := match e with
-                | [1; 0; _] => []
-                | [6; k; c] => if cond_ok c k then adel (m_retry m) k else m_retry m
-                | [8; c] => filter (fun kd => negb (cond_ok c (fst kd))) (m_retry m)
-                | _ => m_retry m
-                end in
-  let '(bo', retry1) :=
-    fold_left (fun acc x =>
-                 let '(bo, rt) := acc in
-                 let '(k, d, o) := x in
-                 let cur := match alook (po_keys p) k with Some d' => N.eqb d d' | None => false end in
-                 if nz o then
-                   if cur then
-                     let idx := match alook bo d with Some i => i | None => 0%nat end in
-                     (aset bo d (S idx),
-                      match m_script m with
-                      | Some l => match nth_error l idx with Some dur => aset rt k (clock' + dur) | None => adel rt k end
-                      | None => adel rt k
-                      end)
-                   else acc
-                 else (aset bo d 0%nat, if cur then adel rt k else rt))
-              (po_delta p) (m_bo m, retry0) in
-  let retry2 := fold_left (fun rt k => adel rt k) spawned_keys retry1 in
-  let retry3 := if live' then filter (fun kd => ahas (po_keys p) (fst kd)) retry2 else [] in
-  let parked_retry (k : N) : bool := existsb (fun t => let '(kind, k', _) := t in N.eqb kind 0 && N.eqb k' k) (po_tims p) in
-  let f7d := fails 7 5 (forallb (fun kd => negb (N.leb (snd kd) clock') || parked_retry (fst kd)) retry3) in
-  ({| m_delay := m_delay m; m_script := m_script m; m_clock := clock'; m_ctx := ctx'; m_ref := r2;
-      m_okeys := po_keys p; m_incs := incs'; m_ninc := ninc'; m_ninst := length (po_insts p); m_sinc := sinc';
-      m_bo := bo'; m_retry := retry3; m_tims := po_tims p; m_canc := canc' |},
-   f6 ++ f7a ++ f7b ++ f7c ++ f7d ++ f7e).
+  ({| m_delay := m_delay m; m_script := m_script m; m_clock := e_clock m e; m_ctx := e_ctx m e; m_ref := ref2 m e p;
+      m_okeys := po_keys p; m_incs := fst (incs_of m p); m_ninc := snd (incs_of m p); m_ninst := length (po_insts p);
+      m_sinc := sinc_of m p; m_bo := fst (retry1_of m e p); m_retry := retry3_of m e p; m_tims := po_tims p;
+      m_canc := e_canc m e |},
+   fails 6 1 (c61 m e p) ++ fails 6 2 (c62 m e p) ++ fails 6 3 (c63 m e p) ++ fails 6 4 (c64 m e p) ++ fails 6 5 (c65 m e p)
+   ++ fails 7 1 (c71 m p) ++ fails 7 2 (c72 m e p) ++ fails 7 3 (c73 m p) ++ fails 7 4 (c74 m e p) ++ fails 7 5 (c75 m e p)
+   ++ fails 7 6 (c76 m e p) ++ fails 7 7 (c77 m e p)).
 
 Definition mon (m : option mst) (e o : list N) : option mst * list (nat * nat) :=
   match m with
